@@ -13,6 +13,7 @@ use std::time::Duration;
 
 pub fn swarm() -> Swarm {
     Swarm {
+        alloc_modes: true,
         stalls: true,
         stall_max_ns: 3_000_000,
         spurious_park: true,
@@ -241,7 +242,14 @@ pub fn run_b(seed: u64, mut ov: impl FnMut(&mut engine::Cfg)) -> ! {
                             ));
                         }
                         let ur = slot.unpark_ret_vt.load(Ordering::Relaxed);
-                        if ur != u64::MAX && ur < t0 + d {
+                        // An unpark that returned before the deadline must win - unless the parker
+                        // itself was held up past its deadline (a stall inside park: by then both
+                        // "unparked" and "deadline passed" are true and Timeout is a legitimate
+                        // answer, "at or after its deadline"). So: exact in undisturbed runs; in
+                        // runs with stalls only an unpark that returned before park was even
+                        // called (the token is there, park must not look at the clock at all)
+                        let limit = if engine::quiet() { t0 + d } else { t0 };
+                        if ur != u64::MAX && ur < limit {
                             violation(&format!(
                                 "waiter{}: Blocker::park({} ns) called at {} reported Timeout although an unpark had returned at {} (before the deadline): lost wake-up",
                                 wi, d, t0, ur
